@@ -565,7 +565,10 @@ func (r *connRun) wait() (state, info string) {
 		if g == nil {
 			continue // returning right now
 		}
-		if mutexBlocked(g) {
+		if raceMode {
+			// free-running pass: other goroutines legitimately hold locks, and the
+			// detector slows everything down; only the (long) watchdog applies
+		} else if mutexBlocked(g) && !strings.Contains(g.text, "main.(*pconn)") {
 			// Run's goroutine waits for a mutex. Every other goroutine that can
 			// touch these mutexes (the writing thread) holds them for nanoseconds and
 			// never blocks while holding one, so an identical blocked stack on
@@ -1183,6 +1186,8 @@ func runSelf(n *nodeEnv, cs *Case) (res Result) {
 }
 
 // ---------------------------------------------------------------------------
+
+var raceMode bool // set in the -race child: no structural stuck-detection, no lock probes in between
 
 var memBase uint64
 
